@@ -1,6 +1,7 @@
 package jsonapi
 
 import (
+	"bytes"
 	"encoding/json"
 	"fmt"
 	"net/url"
@@ -170,7 +171,12 @@ func (u *URL) String() string {
 		param := "filter=" + escapeQuery(string(mf))
 		urlParams = append(urlParams, param)
 	} else if u.Params.FilterLabel != "" {
-		urlParams = append(urlParams, "filter="+escapeQuery(u.Params.FilterLabel))
+		// The parser reads the label as the content of a JSON string (a
+		// backslash starts an escape sequence), so it is written as one.
+		urlParams = append(
+			urlParams,
+			"filter="+escapeQuery(jsonStringContent(u.Params.FilterLabel)),
+		)
 	}
 
 	// Pagination
@@ -216,6 +222,21 @@ func (u *URL) String() string {
 // be read back unchanged. Spaces are encoded as %20.
 func escapeQuery(s string) string {
 	return strings.ReplaceAll(url.QueryEscape(s), "+", "%20")
+}
+
+// jsonStringContent returns s as it is written inside a JSON string, without
+// the surrounding quotes.
+func jsonStringContent(s string) string {
+	buf := &bytes.Buffer{}
+	enc := json.NewEncoder(buf)
+	enc.SetEscapeHTML(false)
+
+	// A string can always be encoded.
+	_ = enc.Encode(s)
+
+	b := bytes.TrimSpace(buf.Bytes())
+
+	return string(b[1 : len(b)-1])
 }
 
 // UnescapedString returns the same thing as String, but special characters are
